@@ -21,6 +21,12 @@ def agent_models(tier, devs=True):
     runs = [ModelRun('TcpclAgent', AGENT_CFG % (n, '{}'), 'agent', workers=8,
                      note='two agents, <= %d connections (queued / negotiating / established / terminating), shutdown '
                           'and stop by either side at any moment, every interleaving' % n)]
+    if tier == 'thorough':
+        live = AGENT_CFG.replace('SPECIFICATION Spec', 'SPECIFICATION FairSpec').replace(
+            'CHECK_DEADLOCK FALSE', 'PROPERTY EndLive\nPROPERTY PeerLive\nCHECK_DEADLOCK FALSE')
+        runs.append(ModelRun('TcpclAgent', live % (3, '{}'), 'agent-live', workers=8, timeout=3000,
+                             note='liveness under weak fairness: every shutdown / stop request ends with the agent '
+                                  'stopped and no connection of it open on either side'))
     if devs:
         runs.append(ModelRun('TcpclAgent', AGENT_CFG % (3, '{"stop_skips_every_other"}'), 'agent-dev-stop',
                              expect='violation', workers=8,
